@@ -355,7 +355,10 @@ func (e *Engine) CheckAll() {
 	}
 	for _, n := range e.nodes {
 		e.negativeViews(n)
-		for _, v := range e.openViews(n) {
+		views := e.openViews(n)
+		e.recheckHeld(n, qs)
+		e.hold(n, views)
+		for _, v := range views {
 			st := e.g.States[v.n]
 			headSt := e.g.States[h-1]
 			mt := model(n.kind, v.label, v.n)
@@ -388,12 +391,27 @@ func (e *Engine) CheckAll() {
 							suffix = "-after-drain"
 						}
 					}
+					if q.Kind == "classhash" && e.deployedAndReplaced(st, q.Addr) {
+						suffix = "-deployed-and-replaced-in-one-diff"
+					}
 					if q.Kind == "storage" && v.label == "head" && e.staleLeafShape(q, got) {
 						suffix = "-stale-leaf-after-delete-next-to-sibling"
 					}
 					qj := qjson(q)
 					qj["node"], qj["backend"], qj["view"], qj["n"] = n.name, n.kind, v.label, v.n
 					qj["got"], qj["want"] = got, strings.Join(want, "|")
+					// (by-number and by-hash views of a block fail together; by-hash views are sampled)
+					vl := v.label
+					if vl == "hash" {
+						vl = "num"
+					}
+					base := n.kind + "-" + vl + "-" + kind + "-" + classify(want, got) + suffix
+					if isDiscarded(e.lastOp) && !e.baseSeen[base] {
+						// first seen right after an operation that must have no effect: that is the cause
+						suffix += "-after-discarded-" + e.lastOp
+					} else {
+						e.baseSeen[base] = true
+					}
 					e.fail(Failure{Violation: true, Sig: n.kind + "-" + v.label + "-" + kind + "-" + classify(want, got) + suffix,
 						What: fmt.Sprintf("%s backend, %s view of block %d (head %d): %s %v = %s, the state diffs up to block %d give %s",
 							n.kind, v.label, v.n, h-1, q.Kind, qj, got, v.n, strings.Join(want, "|")),
@@ -461,6 +479,17 @@ func (e *Engine) staleLeafShape(q query, got string) bool {
 		}
 	}
 	return false
+}
+
+// deployedAndReplaced: the block that deployed the contract also lists it under ReplacedClasses
+// (shape of one known defect of the new backend's history; not a well-formed Starknet diff).
+func (e *Engine) deployedAndReplaced(st *lib.AbsState, a *felt.Felt) bool {
+	c, ok := st.Contracts[*a]
+	if !ok || !st.Deployed[*a] || int(c.DeployedAt) >= len(e.descs) {
+		return false
+	}
+	_, both := e.descs[c.DeployedAt].Diff.ReplacedClasses[*a]
+	return both
 }
 
 func tokClass(t string) string {
